@@ -41,8 +41,8 @@ CLAIMED = {
          "Dynamic theorems for every Flush/CopyTo/FlushRevert of the model; static theorem no_write_reachable over the call graph regenerated from /repo on every run (closure certificate checked in Lean), write_sites/truncate_sites equalities, tools/view read-only. The memfile's complete call log is checked call by call (appendcheck) and compared with the model's write log.",
          "Soundness of the translator's call graph (closures, method values, interface dispatch, json reflection edges) is trusted."),
  "C11": ("Lean proof: copyTo_contents for every flushEvery, independence of flushEvery, destination-only writes; correspondence",
-         "copy_equivalent holds for every source and every flushEvery; the package's CopyTo (writable stores, snapshots, evicted and re-opened sources, fe in {-1,0,1,2,3,5,100}) is compared on destination contents, destination image and re-opened destination, source contents and source write log.",
-         "'holds only live data' is checked through byte-exact destination images against the model, not stated as its own theorem."),
+         "copy_equivalent holds for every source and every flushEvery; copy_holds_only_live_item_records for every flushEvery > 0; the package's CopyTo (writable stores, snapshots, evicted and re-opened sources, fe in {-1,0,1,2,3,5,100}) is compared on destination contents, destination image and re-opened destination, source contents and source write log.",
+         "'holds only live data (no superseded item versions)' is copy_holds_only_live_item_records: on the model, for fe > 0 and well-formed sources, the item records written are exactly (as a multiset) the destination's live (item, location) pairs, pairwise disjoint and inside the file; node records are superseded by periodic flushes and the theorem does not say otherwise. It reaches the code through the byte-exact comparison of destination images with the model's in the stream."),
  "C14": ("Lean proof: codec round trips, root record, flush_then_open with the independent decoder; decide on regenerated constants; decoder run on the implementation's bytes",
          "Item/node/root round trips, decode_flushed_file, coherent (children-before-parent) layout; obligations on constants regenerated from /repo (version, magics, header offsets, record lengths, JSON tags, byte order). Every flushed image of the package is decoded by the Lean codec and compared with what the package reads back, and byte-compared with the model's image.",
          "Names needing JSON escapes: executable codec + correspondence only (root_roundtrip_partial)."),
@@ -52,9 +52,9 @@ CLAIMED = {
  "C18": ("Lean proof on the two-goroutine iterator model (all programs, all interleavings) + lock-discipline tables; iterator and nested-callback correspondence",
          "no_panic, no_deadlock, terminates, producer_exits_and_unpins, next_after_end_is_false, observable_deterministic for every item list, consumer program and interleaving; callbacks never run under a mutex (regenerated tables). Real iterators are driven with random Next/Close programs; outputs, goroutine count and version pin are checked; visitor callbacks issue nested reads and mutations.",
          "PARTIAL: real scheduler interleavings of the two goroutines are sampled, not enumerated; abandoned iterators are excluded by the property."),
- "C15": ("Lean proof of the reference accounting invariant over all event sequences; callback-log predicates on the implementation",
-         "accounting / never_negative / reachable_positive / closed_balanced_partial (+ nodes_freed_or_orphan, nodes_all_freed_if_no_load_under_replaced, nodes_not_all_freed on the version protocol) for every precondition-respecting sequence of the seven reference events. The package runs with counting ItemAlloc/ItemAddRef/ItemDecRef callbacks over histories with snapshots, evictions, flushes, re-opens, nested visits; after every step no count is negative and every cached reachable item is positive; after closing everything all counts are zero EXCEPT in the histories of known finding F11, where the property's last clause is false of the code (see level_note).",
-         "closed_balanced_partial assumes every node object was freed; nodes_not_all_freed proves on the version-protocol model that this assumption can fail and nodes_all_freed_if_no_load_under_replaced when it holds. Model Refs itself has no nodes loaded lazily into an old version's private copy of a child slot; on the code that is exactly where the clause 'once everything is closed every reference has been released' FAILS (known finding F11, corpus/F11-orphan-leak.ops, known_findings.json; the check prints KNOWN-FINDING for it and still reports any other imbalance). The first two clauses (never negative, reachable => positive) have no known counterexample. The event model is tied to the code only through these predicates (not an event-by-event log comparison); Get's aliasing reference is counted as the caller's; faults are outside C15's quantifier."),
+ "C15": ("Lean proof of the reference accounting invariant over all event sequences + leak-freedom of the version protocol when no slot is copied unloaded + regenerated obligation on the code's slot copies; callback-log predicates on the implementation",
+         "accounting / never_negative / reachable_positive / closed_balanced_partial for every precondition-respecting sequence of the seven reference events; nodes_freed_or_orphan, nodes_all_freed_if_no_load_under_replaced, nodes_not_all_freed on the version protocol; slots_loaded_before_copied (decide over Gen/SlotCopies.lean, regenerated from /repo). The package runs with counting ItemAlloc/ItemAddRef/ItemDecRef callbacks over histories with snapshots, evictions, flushes, re-opens, nested visits, cold mutations under snapshots; after every step no count is negative and every cached reachable item is positive; after closing everything all counts are zero.",
+         "closed_balanced_partial assumes every node object was freed. That assumption was FALSE of the pinned code (defect F11, repaired by /repo c2c929d, replays in corpus/); for the repaired code it is supported by the model theorem nodes_all_freed_if_no_load_under_replaced, the syntactic obligation slots_loaded_before_copied (textual order within a function, not dominance) and the refbalance predicate on the histories run - not by a proof about the Go code. The event model is tied to the code only through these predicates (not an event-by-event log comparison); Get's aliasing reference is counted as the caller's; faults are outside C15's quantifier."),
  "C19": ("Lean proof: open_reads_root_only (exact read list of the scan), key-only loads never touch value bytes, flush writes tile the file; read-log checks on the implementation",
          "The model of NewStore's reads is the Go loop position by position; for files ending in a root record exactly Stat + 2 reads. Key-only traversals in any cache state read only node records and header+key ranges; records never overlap. On the implementation, every open's read list is compared exactly and every read of every key-only call (GetItem/Min/Max/visit without value, Exist, Len, Set, Delete) is checked against the value ranges of all item records ever flushed.",
          "Value ranges are computed by the model from its own (byte-identical) file image."),
